@@ -64,7 +64,7 @@ for name, f, props, old, new in M:
         print(name, 'ANCHOR NOT FOUND (%d)' % s.count(old)); continue
     run_one(name, f, props, lambda: open(p,'w').write(s.replace(old, new)), lambda: subprocess.run(['git','checkout','--',f], cwd=repo))
 # independently written breaking changes (patch files)
-for d, pr in [('C14-1','C14'),('C14-2','C14'),('C14-3','C14'),('C07-1','C07'),('C07-2','C07'),('C07-3','C07')]:
+for d, pr in [('C14-1','C14'),('C14-2','C14'),('C14-3','C14'),('C07-1','C07'),('C07-2','C07'),('C07-3','C07'),('C08-1','C08'),('C08-2','C08'),('C08-3','C08')]:
     name = 'seeded-' + d
     if sel and not any(name.startswith(x) for x in sel): continue
     patch = '/verif/seeded/%s/patch.diff' % d
